@@ -30,6 +30,11 @@ EXPRS = [
     ("comp-in-lambda.reads-param", "(lambda p: [p for i in R])(z)", ["R", "z"], ["p", "i"]),
     ("comp-in-lambda.dict-value-free", "(lambda p: {i: z for i in R})(1)", ["R", "z"], ["p", "i"]),
     ("comp-in-lambda.second-iter-free", "(lambda p: [j for i in R for j in RR])(1)", ["R", "RR"], ["p", "i", "j"]),
+    # the iterable of a comprehension is evaluated in the ENCLOSING scope: a name read there is free even when the clause's own
+    # target is spelled the same
+    ("comp-in-lambda.iter-reads-the-target-name", "(lambda p: [R for R in R])(1)", ["R"], ["p"]),
+    ("comp-in-lambda.iter-reads-the-target-name-gen", "(lambda p: list(R + 0 for R in R if R))(1)", ["R"], ["p"]),
+    ("comp-in-lambda.second-clause-reads-first-target", "(lambda p: [j for i in RR for j in i])(1)", ["RR"], ["p", "i", "j"]),
     ("lambda.pos", "(lambda p: (p, z))(1)", ["z"], ["p"]),
     ("lambda.posonly", "(lambda p, /: (p, z))(1)", ["z"], ["p"]),
     ("lambda.default", "(lambda p=z: p)()", ["z"], ["p"]),
@@ -104,6 +109,9 @@ STMTS = [
     ("for.tuple-target", "for a, b in PP:\n    r19 = (a, b)", ["PP"], []),
     ("for.starred-target", "for a, *b in P3:\n    r19 = (a, b)", ["P3"], []),
     ("for.else", "for a in R:\n    pass\nelse:\n    r19 = (a, z)", ["R", "z"], []),
+    ("def.comp-iter-reads-the-target-name", "def g():\n    return [R for R in R]\nr19 = g()", ["R"], []),
+    ("import.dotted3", "import xml.sax.saxutils\nr19 = xml.sax.saxutils.escape('<')", [], []),
+    ("import.dotted3-two", "import os, xml.sax.saxutils\nr19 = (os.sep, xml.sax.saxutils.escape('<'))", [], []),
     ("import.as", "import os.path as q\nr19 = q.sep", [], []),
     ("import.dotted", "import os.path\nr19 = os.sep", [], []),
     ("from-import", "from os import path as q, sep\nr19 = (q.sep, sep)", [], []),
